@@ -72,6 +72,10 @@ def run(prog: Program, rep: Report, tier: str):
     rule_static(prog, rep)
     rule_closure(prog, rep)
     rule_effect(prog, rep, fns)
+    from .lints import rule_error_if_consumed
+    rule_error_if_consumed(prog, rep, "C14.error-if", minimum=4)
+    from .lints import rule_jit_captures
+    rule_jit_captures(prog, rep, "C14.jit-capture", minimum=3)
     from .staticeq import rule_static_eq
     rule_static_eq(prog, rep, "C14.static-eq", minimum=4)
     if tier == "thorough":
